@@ -1,6 +1,7 @@
 import SJ.Proofs.Facts
 import SJ.Proofs.Shared
 import SJ.Generated.GoPools
+import SJ.Generated.GoJoins
 /-
 C20 — Independent objects can be used from concurrent goroutines.
 -/
@@ -76,5 +77,34 @@ theorem C20_pool_exclusive {S A I O L : Type} (sc : Scratch S A I O) (hc : Reset
     (∀ k k' r, r ∈ s.pools k → r ∈ s.pools k' → k = k') :=
   let h := pool_exclusive sc hc objs l0 P hd sched
   ⟨h.1, h.2.1, h.2.2.1, h.2.2.2.1⟩
+
+open SJ.Joins SJ.Generated in
+/-- the regenerated event list of `Serializer.Deserialize` passes the join check, and every path through `decBlock`
+    returns no error once it has started a goroutine (kernel evaluation of the two executable checks) -/
+theorem C20_joins_checked : joinsOK deserializeJoinEvents = true ∧ decBlockPaths.all pathOK = true := by decide
+
+open SJ.Joins SJ.Generated in
+/-- **Deserialize joins its goroutines before every return.** At every return statement of the regenerated event list,
+    every WaitGroup handed to a `decBlock` call in front of it (which may have started a decompressor writing the
+    destination) and not explicitly waited for since has its `defer X.Wait()` registered earlier — so when Deserialize
+    is back in its caller, with a result or with an error, none of its goroutines is still running. (A `decBlock` call
+    whose own error return comes right after it counts from after that return: `C20_decBlock_error_starts_nothing`.) -/
+theorem C20_deserialize_joins_before_return (pre rest : List Ev) (h : deserializeJoinEvents = pre ++ .ret :: rest)
+    (w : String) (hu : Unjoined pre w) : Deferred pre w :=
+  joinsOK_sound deserializeJoinEvents C20_joins_checked.1 pre rest h w hu
+
+open SJ.Joins SJ.Generated in
+/-- on every path through the regenerated `decBlock`, a `go` statement is never followed by an error return: an error
+    from `decBlock` means that this call started nothing -/
+theorem C20_decBlock_error_starts_nothing (p : List DEv) (hp : p ∈ decBlockPaths) (a b : List DEv) (hs : p = a ++ .go :: b) :
+    DEv.retErr ∉ b :=
+  pathOK_sound p (List.all_eq_true.mp C20_joins_checked.2 p hp) a b hs
+
+open SJ.Joins in
+/-- the check is not vacuous: the order of the unrepaired tree (the join registered after the message block) fails it,
+    and so does a Deserialize without deferred joins -/
+theorem C20_joins_rejects :
+    joinsOK [.start "sWG", .ret, .ret, .start "sWG", .deferWait "sWG", .ret] = false ∧
+    joinsOK [.start "sWG", .start "wg", .wait "wg", .ret, .wait "sWG", .ret] = false := by decide
 
 end SJ.Properties.C20
